@@ -826,11 +826,11 @@ func (s *c15StaticTS) Token() (*oauth2.Token, error) { return s.tok, nil }
 func TestVerifC15(t *testing.T) {
 	cfg := vh.Config{
 		Property: "C15",
-		Cases:    vh.Pick(4000, 400000),
+		Cases:    vh.Pick(20000, 600000),
 		Rule: "each case: one scripted OAuth world (server URL x WWW-Authenticate shape x PRM document variant at each of 3 locations x AS metadata variant at each of up to 3 locations x capability flags x handler registration config incl. issuer-bound pre-registered credentials x registration response x fetcher result (state/iss variants) x token endpoint behaviour x single/concurrent/sequential Authorize calls); " +
 			"the real AuthorizationCodeHandler.Authorize runs against it through the injected http.Client and fetcher. Every document embeds a unique marker in all values it names; the monitor checks on every HTTP request, authorization URL and token request: I1 target is https or loopback; I2 no value that only a must-reject document named is used; I3 a code is exchanged only for the state generated for that attempt, a passing RFC 9207 check and with the matching PKCE verifier; I4 issuer-bound credentials never reach another issuer; I5 after an error without successful exchange the token source is unchanged, and an installed token is one minted for an accepted attempt. " +
 			"non-trivial: at least one must-reject document/result was actually delivered to the SDK, or a token was installed. distinct = distinct (delivered rejects, stages reached)",
-		MinNontrivial: 300,
+		MinNontrivial: 1500,
 		Assumptions: []string{"the injected http.Client does not follow redirects to other origins (the scripted world never redirects)",
 			"issuer identifiers differing only by one trailing slash are borderline: accepting and rejecting are both allowed",
 			"an iss value returned although the server does not advertise the parameter must still equal the issuer"},
